@@ -9,6 +9,12 @@ NOTE = ('trusted: go/ssa lowering (x/tools v0.29.0), the symgo interpreter (vali
         'the reference model in the harness, z3 5.1.0; environment stubs and bounds are listed in the evidence file')
 
 CLAIMED = {
+    'C01': dict(text='each of the 245+256 opcodes run through the real dispatch tables, scheduler and helpers with all registers, flags, SP, PC, IE/IF/IME and the whole 64 KiB memory symbolic, compared with a bit-field-decoded reference SM83 on every register, flag, every memory byte (symbolic probe) and the halt/stop/IME state: width-complete per opcode (stronger than the exhaustive/random sampling the quantifier describes)',
+                ref='DESIGN.md §3 C01', note=NOTE + '; memory.Mapper replaced by a flat 64 KiB array stub for CPU-level checks (address decoding is C06/C07)'),
+    'C02': dict(text='for every opcode the number of machine cycles between instruction boundaries, as a symbolic value merged over taken/not-taken paths, equals the documented count for all flag values and operands',
+                ref='DESIGN.md §3 C02', note=NOTE + '; flat memory stub; whole-ROM timing outside'),
+    'C03': dict(text='for every opcode the logged (cycle, kind, address, value) of each data access equals the documented bus schedule, for every register and memory value',
+                ref='DESIGN.md §3 C03', note=NOTE + '; flat memory stub with access log; operand-fetch cycle outside the claim'),
     'C08': dict(text='per cartridge type x ROM size: one control write (any address, any value) from every register state under the proved simulation relation, then a read at any address below 0x8000 equals the byte of the documented bank (mod ROM size); ROM page contents are uninterpreted, ROM immutability via a universally quantified probe; inductive, so every write sequence is covered',
                 ref='DESIGN.md §3 C08'),
     'C09': dict(text='per cartridge type x RAM size: one write (control or data) from every state with arbitrary RAM contents: gating by enable, bank selection modulo bank count, exactly the addressed cell changes, contents kept across enable/bank switches, RAM dump equals stored bytes, MBC2 nibble/window rules, ROM-only reads 0xFF; inductive one-step',
